@@ -51,7 +51,7 @@ class Ctx:
         self.seed = int(seed)
         self.replay = replay
         self.t0 = time.time()
-        self.work = mkdirs(os.path.join(CACHE, 'work', prop + ('' if REPO == '/repo' else '-' + sha(REPO))))
+        self.work = mkdirs(os.path.join(CACHE, 'work', prop + ('' if REPO == '/repo' else '-' + sha(REPO)) + ('' if VERIF == '/verif' else '-s' + sha(VERIF)[:6])))
         self.violations = []      # list of dicts (what, replay path)
         self.known = []           # matched known findings
         self.drift = []           # I-layer mismatches (never alarms)
